@@ -2,7 +2,7 @@
 # usage: python3 tools/gen_c08_mutations.py [name ...]   -- applies each change in a scratch worktree of /repo
 # (created and removed here), runs `VERIF_REPO=<worktree> ./check C08` and prints the first finding.
 import subprocess, sys, os, re
-WT='/var/tmp/wt-c08-mut-%d' % os.getpid()
+WT='/var/tmp/wt-aud2-c08-mut-%d' % os.getpid()
 subprocess.run(['git','-C','/repo','worktree','add','-q','--detach',WT],check=True)
 muts = {
  'M1-straddle': ('c2mir/c2mir.c', "      if ((curr_offset + field_type_size) * MIR_CHAR_BIT\n          < prev_field_offset * MIR_CHAR_BIT + *bound_bit + bits) {", "      if ((curr_offset + field_type_size) * MIR_CHAR_BIT + 4\n          < prev_field_offset * MIR_CHAR_BIT + *bound_bit + bits) {"),
@@ -15,15 +15,37 @@ muts = {
  'M8-merge-sse-int': ('c2mir/x86_64/cx86_64-ABI-code.c', "  if (arg_type1 == MIR_T_I64 || arg_type1 == MIR_T_I32 || arg_type2 == MIR_T_I64\n      || arg_type2 == MIR_T_I32)\n    return MIR_T_I64;", "  if (arg_type1 == MIR_T_I64 || arg_type1 == MIR_T_I32) return MIR_T_I64;\n  if (arg_type2 == MIR_T_I64 || arg_type2 == MIR_T_I32) return arg_type1;"),
  'M9-last-qword-size': ('c2mir/x86_64/cx86_64-ABI-code.c', "  if (last_size <= 4 && mir_type == MIR_T_D) qword_types[n - 1] = MIR_T_F;", "  if (last_size <= 4 && mir_type == MIR_T_D) qword_types[n - 1] = MIR_T_I32;"),
  'M10-bitfield-after-regular': ('c2mir/c2mir.c', "          if (*bound_bit + bits <= (long) field_type_size * MIR_CHAR_BIT) continue;", "          if (*bound_bit + bits < (long) field_type_size * MIR_CHAR_BIT) continue;"),
+ # ---- round-2 audit: aimed at what the first-round harness did not reach (a value may be a list of edits;
+ # count = number of occurrences replaced)
+ 'R2-1-hidden-ptr-takes-no-reg': [('c2mir/x86_64/cx86_64-ABI-code.c', "    VARR_PUSH (MIR_var_t, arg_vars, var);\n    arg_info->n_iregs++;", "    VARR_PUSH (MIR_var_t, arg_vars, var);"),
+                                  ('c2mir/x86_64/cx86_64-ABI-code.c', "  } else if (ret_type->mode == TM_STRUCT || ret_type->mode == TM_UNION) { /* return by reference */\n    arg_info->n_iregs++;", "  } else if (ret_type->mode == TM_STRUCT || ret_type->mode == TM_UNION) { /* return by reference */")],
+ 'R2-2-ldouble-scalar-takes-int-reg': [('c2mir/x86_64/cx86_64-ABI-code.c', "    else if (type != MIR_T_LD)\n      arg_info->n_iregs++;", "    else\n      arg_info->n_iregs++;", 2)],
+ 'R2-3-enum-bitfield-sign-width': ('c2mir/c2mir.c', "                 || op.decl->width >= (int) sizeof (mir_int) * MIR_CHAR_BIT)", "                 || op.decl->width >= (int) sizeof (mir_int) * MIR_CHAR_BIT - 1)"),
+ 'R2-4-one-bit-signed-field-unsigned': ('c2mir/c2mir.c', "         signed_integer_type_p (op.decl->decl_spec.type)\n             && (op.decl->decl_spec.type->mode != TM_ENUM", "         signed_integer_type_p (op.decl->decl_spec.type) && op.decl->width > 1\n             && (op.decl->decl_spec.type->mode != TM_ENUM"),
+ 'R2-5-array-last-element-unclassified': ('c2mir/x86_64/cx86_64-ABI-code.c', "    for (mir_size_t i = 0; i * el_size < size; i++)", "    for (mir_size_t i = 0; (i + 1) * el_size < size; i++)"),
+ 'R2-6-ldouble-struct-returned-by-address': ('c2mir/x86_64/cx86_64-ABI-code.c', "    if (n_iregs > 2 || n_fregs > 2 || n_stregs > 1) n_qwords = 0;", "    if (n_iregs > 2 || n_fregs > 2 || n_stregs > 0) n_qwords = 0;"),
+ 'R2-7-anon-member-offset-not-relative': ('c2mir/x86_64/cx86_64-ABI-code.c', "          member_offset -= ((decl_t) container->attr)->offset;", "          member_offset -= 0 * ((decl_t) container->attr)->offset;"),
+ 'R2-8-enum-uint-range-is-8-bytes': ('c2mir/c2mir.c', "               : max_val <= MIR_UINT_MAX && 0 <= min_val            ? TP_UINT", "               : max_val <= MIR_UINT_MAX && 0 <= min_val            ? TP_ULONG"),
+ # harmless refactorings: must NOT be reported
+ 'H1-merge-tests-reordered': ('c2mir/x86_64/cx86_64-ABI-code.c', "  if ((enum add_arg_class) arg_type1 == NO_CLASS) return arg_type2;\n  if ((enum add_arg_class) arg_type2 == NO_CLASS) return arg_type1;\n\n  if (arg_type1 == MIR_T_UNDEF || arg_type2 == MIR_T_UNDEF) return MIR_T_UNDEF;",
+                              "  if (arg_type1 == MIR_T_UNDEF || arg_type2 == MIR_T_UNDEF) return MIR_T_UNDEF;\n  if ((enum add_arg_class) arg_type2 == NO_CLASS) return arg_type1;\n  if ((enum add_arg_class) arg_type1 == NO_CLASS) return arg_type2;\n"),
+ 'H2-layout-round-size-helper': [('c2mir/c2mir.c', "  start_offset = curr_offset\n    = (*overall_size + field_type_align - 1) / field_type_align * field_type_align;", "  start_offset = curr_offset = round_size (*overall_size, (mir_size_t) field_type_align);"),
+                                 ('c2mir/c2mir.c', "          end = offset + (bits <= 0 ? member_size : (mir_size_t) (bound_bit + MIR_CHAR_BIT - 1) / MIR_CHAR_BIT);", "          end = bits <= 0 ? offset + member_size : offset + (mir_size_t) ((bound_bit - 1) / MIR_CHAR_BIT + 1);")],
 }
 which = sys.argv[1:] or list(muts)
 for name in which:
-    f, old, new = muts[name]
+    edits = muts[name] if isinstance(muts[name], list) else [muts[name]]
     subprocess.run(['git','-C',WT,'checkout','-q','--','.'],check=True)
-    p=os.path.join(WT,f); s=open(p).read()
-    if s.count(old)!=1:
-        print(name,'PATTERN COUNT',s.count(old)); continue
-    open(p,'w').write(s.replace(old,new))
+    okp = True
+    for e in edits:
+        f, old, new = e[:3]
+        cnt = e[3] if len(e) > 3 else 1
+        p=os.path.join(WT,f); s=open(p).read()
+        if s.count(old)!=cnt:
+            print(name,'PATTERN COUNT',s.count(old)); okp = False; break
+        open(p,'w').write(s.replace(old,new))
+    if not okp:
+        continue
     r=subprocess.run(['./check','C08'],cwd=os.path.dirname(os.path.dirname(os.path.abspath(__file__))),env=dict(os.environ,VERIF_REPO=WT),capture_output=True,text=True)
     lines=r.stdout.split('\n')
     viol=[l for l in lines if l.startswith('VIOLATION')]
